@@ -131,7 +131,7 @@ Qed.
 
 Lemma it_next_good : forall i m ctx its s, igood (it_next spn run m i ctx its s).
 Proof.
-  induction i as [a lo hi|a sep lo hi lead trail|j IHj|f j IHj|f j IHj|a|a lo hi]; intros m ctx its s; cbn [it_next].
+  induction i as [a lo hi|a sep lo hi lead trail|j IHj|f j IHj|f j IHj|a|a lo hi ck]; intros m ctx its s; cbn [it_next].
   - destruct its; try (cbn; split; discriminate).
     pose proof (rep_next_good m a lo hi ctx n s) as G. destruct (rep_next run m a lo hi ctx n s) as [[[] c'] s1]; exact G.
   - destruct its; try (cbn; split; discriminate).
